@@ -202,3 +202,61 @@ Proof. reflexivity. Qed.
 Example C11_idempotent_instance :
   formatted_text c11_messy true 2 = Done c11_tidy /\ format_request c11_tidy true 2 = Done None.
 Proof. vm_compute. split; reflexivity. Qed.
+
+(* ================================================================================================
+   6. Idempotence - PROVED for comment-free programs (Proofs/FormatStruct*.v, with C04 and C06)
+
+   For every valid abstract program p without comments ([comment_free], [aprog_valid], [prog_ok] = no dangling-else
+   shape): the text the printer returns for p's tree lexes back to p's tokens (C09_tokens: structural induction over the
+   printers + lexical conformance C06), those tokens parse to the same tree (C04_roundtrip), and the printers read token
+   kinds only (C11_printer_reads_kinds_only) - so formatting the formatted text prints it again and the handler answers
+   null.  [C11_idempotent_document] is the instance of [C11_idempotent_full_statement] for every document that is a layout
+   of such a program (any whitespace, any spelling of the literals): its hypothesis `syntactically_valid doc` is replaced
+   by "doc lexes to the tokens of a valid comment-free abstract program".  Open: programs with comments. *)
+From Spl Require Import Spec.Grammar Proofs.PipelineText Proofs.FormatStructProg.
+
+Theorem C11_idempotent_comment_free : forall p toks ins ts txt,
+  prog_ok p = true -> comment_free p = true -> aprog_valid p = true -> map tk toks = flatten p ++ [Eof] ->
+  fmt_program (options_of ins ts) (expected p) toks = FOk txt ->
+  format_request txt ins ts = Done None.
+Proof. exact idempotent_comment_free. Qed.
+Print Assumptions C11_idempotent_comment_free.
+
+Theorem C11_idempotent_document : forall p doc toks ins ts,
+  prog_ok p = true -> comment_free p = true -> aprog_valid p = true ->
+  lex doc = Some toks -> map tk toks = flatten p ++ [Eof] ->
+  exists out, formatted_text doc ins ts = Done out /\ format_request out ins ts = Done None.
+Proof.
+  intros p doc toks ins ts H1 H2 H3 H4 H5.
+  destruct (format_document p doc toks ins ts H1 H2 H3 H4 H5) as (txt & toks' & E & _ & _ & N). exists txt. split; assumption.
+Qed.
+Print Assumptions C11_idempotent_document.
+
+(* proc main() { if (a < 1) { x := 007; } else y := 0x0a; }  - the abstract program whose layouts c11_messy and c11_tidy are *)
+Definition c11_f (f : afac) : acmp := CAdd (AMul (MFac f)).
+Definition c11_prog : aprog :=
+  {| a_decls :=
+       [DProc [] [] (str "main") [] None [] [] []
+          (SCons
+             (SIfE [] [] (CBin (AMul (MFac (FVar (AName [] (str "a"))))) [] CLt (AMul (MFac (FLit [] (LDec 1))))) []
+                (SBlk [] (SCons (SAsg (AName [] (str "x")) [] (c11_f (FLit [] (LDec 7))) []) SNil) []) []
+                (SAsg (AName [] (str "y")) [] (c11_f (FLit [] (LHex 10))) []))
+             SNil) []];
+     a_ceof := [] |}.
+
+Example C11_idempotent_ex :
+  prog_ok c11_prog = true /\ comment_free c11_prog = true /\ aprog_valid c11_prog = true
+  /\ match lex c11_messy with Some toks => map tk toks = flatten c11_prog ++ [Eof] | None => False end
+  /\ formatted_text c11_messy true 2 = Done c11_tidy /\ format_request c11_tidy true 2 = Done None
+  /\ format_request c11_tidy false 2 <> Done None.
+Proof. vm_compute. repeat split; try reflexivity. discriminate. Qed.
+
+(* the instance obtained THROUGH the theorem, for all ten option settings at once *)
+Example C11_idempotent_document_ex : forall ins ts,
+  exists out, formatted_text c11_messy ins ts = Done out /\ format_request out ins ts = Done None.
+Proof.
+  intros ins ts. destruct (lex c11_messy) as [toks|] eqn:El; [|vm_compute in El; discriminate].
+  apply (C11_idempotent_document c11_prog c11_messy toks ins ts); try (vm_compute; reflexivity).
+  - exact El.
+  - vm_compute in El. injection El as <-. vm_compute. reflexivity.
+Qed.
